@@ -143,7 +143,7 @@ class YamlDocument(HierDictDocument):
         return value
 
     def _ret_bool(self, _, value):
-        if value is None or value in (True, False):
+        if value is None or value is True or value is False:
             return value
         raise ValidationError(value)
 
